@@ -13,6 +13,13 @@ Beyond the three correspondence streams two ORACLE-ONLY streams run (no model): 
 class caches: assignments happen before any walk, the "assign in __init__, then export" order) and
 `sibling-classes` (two subclasses of a common base that declares the DBusProperty attributes).
 
+Class families (streams `class-family`, `class-tree`): the classes of ONE inheritance family (base, middle,
+derived; siblings) are built once per case and objects of several of them live together; the history creates them
+(`new`) and uses them in every order (base first then derived, derived first then base), including lookups that
+are correct errors on one class and must succeed on another.  One oracle per instance, reading the declarations
+of the instance's own class chain.  One-chain families are also compared with the Lean family model
+(Obj/PropsFamily.lean: class caches shared and built by whichever instance walks first).
+
 Two independent judgements:
   S3  the Lean model (lean/TxdbusModel/Obj/Props.lean through drv_c17) prints the same lines;
   S4  `Oracle` below, written from the property statement, keeps its own (interface, property) -> value
@@ -29,7 +36,8 @@ THEOREMS = ['keyPair_injective', 'keyConcat_collides', 'get_returns_last_write',
             'original_violates_get_returns_last_write', 'original_getall_misses_base_class',
             'original_getall_unknown_interface_empty', 'original_set_wrong_type_then_get_fails',
             'conforms_eq_hasType', 'accessTable_eq', 'emitsTable_eq', 'classMap_facts', 'repaired_sound',
-            'original_not_sound']
+            'original_not_sound', 'family_object_independent', 'family_get_returns_last_write',
+            'unstable_family_order_matters']
 TRUSTED_BASE = [
     'Python class machinery mirrored by hand in Obj/Props.lean and validated by the streams: MRO of a '
     'single-inheritance chain, class __dict__ order, data-descriptor lookup by attribute name, dict insertion '
@@ -40,10 +48,15 @@ TRUSTED_BASE = [
     'message headers are read back with txdbus.message.parseMessage (C03)',
 ]
 ASSUMPTIONS = [
-    'model and theorems: one single-inheritance chain of DBusObject subclasses, instances of the most derived '
-    "class only; every DBusProperty names (or resolves to) an interface of the object that declares its property "
+    'model and theorems: one single-inheritance chain of DBusObject subclasses; instances of the most derived '
+    'class (Obj/Props.lean) or of ANY classes of the chain together (Obj/PropsFamily.lean, theorems under `stable`: '
+    'every class binds its own DBusProperty objects and every subclass binds them to the same declaration); '
+    "every DBusProperty names (or resolves to) an interface of the object that declares its property "
     'name; declared signatures among the 12 basic types, as, v (other container signatures are run through the '
     'shared codec model and compared, no theorem); sibling subclasses are judged by the oracle only',
+    'class families whose shared DBusProperty objects mean different declarations for different classes of the '
+    'family (not `stable`) are generated on purpose at a low rate, compared with the model, and any oracle failure '
+    'on them is reported under the known finding sibling-classes-share-descriptor',
     'in the correspondence streams the per-class interface caches are built before the first assignment (the '
     "harness calls getAllProperties('org.freedesktop.DBus.Properties') on the new instance, the walk exportObject "
     'itself does); the lazy binding window of DBusProperty.__get__/__set__ is exercised by the oracle-only stream '
